@@ -3,12 +3,13 @@
 //! `sampler gen --seed S --n N [--tier t]` prints input lines
 //!     <id> abc=dna|protein w=<width> mode=oops|zoops api=builder|new seeds=<n|-> inertia=<n|->
 //!          patience=<n|-> ord=0|1 rng=<u64> steps=<n> arm=default|generic|sse2|avx2 wrap=<rows>
-//!          seqs=<text,text,...>
+//!          [src=text|matrix|sample pads=<text,text,..> sseed=<u64>] seqs=<text,text,...>
 //! `sampler run` reads input lines on stdin and prints them followed by
-//!     ` => K=<k>|cnt=<c0,..,cK-1/...>|sym=<i,i,../...>|rerun=<same|diffN>|wts=<ok|badSTEP:..>|pssm=<ok|badSTEP>|<record>|<record>...`
+//!     ` => K=<k>|cnt=<c0,..,cK-1/...>|sym=<i,i,../...>|raw=<cells,cells,..>|rerun=<same|diffN>|wts=<ok|badSTEP:..>|pssm=<ok|badSTEP>|<record>|<record>...`
 //! where
 //!   cnt   = `SymbolCount::count_symbols` of every striped sequence (what `SamplerData::new` caches),
 //!   sym   = the symbol indices read back through `StripedSequence::index` (0..len),
+//!   raw   = all cells of the sequence rows of every striped sequence in linear order (padding included),
 //!   rerun = `same` when a second run of the same configuration printed the same trace,
 //!   wts   = `ok` when, at every step, scoring the hold-out with the iteration's PSSM yields exactly
 //!           len - width + 1 scores through `StripedScores::iter` (what `update_holdout` turns into weights),
@@ -29,6 +30,7 @@
 use std::str::FromStr;
 
 use lightmotif::abc::{Alphabet, Background, Dna, Protein, Symbol};
+use lightmotif::dense::{DefaultColumns, DenseMatrix};
 use lightmotif::pli::dispatch::Dispatch;
 use lightmotif::pwm::CountMatrix;
 use lightmotif::sampler::{Sampler, SamplerBuilder, SamplerData, SamplerMode};
@@ -38,6 +40,7 @@ use lmh::*;
 use rand::rngs::StdRng;
 use rand::SeedableRng;
 use std::collections::HashMap;
+use typenum::Unsigned;
 
 fn list(xs: &[usize]) -> String {
     if xs.is_empty() {
@@ -73,6 +76,68 @@ fn opt(f: &HashMap<String, String>, k: &str) -> Option<usize> {
     }
 }
 
+
+// ---------------------------------------------------------------- data sets
+//
+// src=text   : text -> EncodedSequence -> to_striped()  (unused trailing cells hold the default symbol)
+// src=matrix : StripedSequence::new(matrix, len) from a hand-filled DenseMatrix: the logical sequence
+//              (seqs=) is written in linear order (symbol i at row i mod R, column i div R), the
+//              remaining R*C - len cells are filled with the symbols of pads= (mostly NOT the wildcard)
+// src=sample : StripedSequence::sample(StdRng::seed_from_u64(sseed + i), background(sseed), len): every
+//              cell of every row is random, padding included; `gen` runs the same call and writes what
+//              it produced into seqs= / pads=, `run` prints the raw cells (raw=) for the driver to compare.
+
+/// The striped matrix of `text` followed by `pad` in linear order; (text.len() + pad.len()) must be R * C.
+fn build_matrix<A: Alphabet>(text: &str, pad: &str) -> StripedSequence<A> {
+    let c = <DefaultColumns as Unsigned>::USIZE;
+    let all: Vec<char> = text.chars().chain(pad.chars()).collect();
+    assert!(all.len() % c == 0, "matrix cells do not fill the rows");
+    let rows = all.len() / c;
+    let mut m = DenseMatrix::<A::Symbol, DefaultColumns>::new(rows);
+    for (i, ch) in all.iter().enumerate() {
+        m[i % rows][i / rows] = A::Symbol::from_char(*ch).unwrap();
+    }
+    StripedSequence::<A>::new(m, text.len()).unwrap()
+}
+
+/// The background handed to `StripedSequence::sample`: positive counts derived from the seed.
+fn sample_background<A: Alphabet>(sseed: u64) -> Background<A> {
+    let mut counts = GenericArray::<usize, A::K>::default();
+    let mut x = sseed | 1;
+    for k in 0..counts.len() {
+        x = x.wrapping_mul(6364136223846793005).wrapping_add(1442695040888963407);
+        // the last symbol is the wildcard: kept rare
+        counts[k] = if k + 1 == counts.len() { 1 } else { 3 + ((x >> 33) % 9) as usize };
+    }
+    Background::<A>::from_counts(&counts).unwrap()
+}
+
+fn sample_striped<A: Alphabet>(sseed: u64, i: usize, len: usize) -> StripedSequence<A> {
+    StripedSequence::<A>::sample(StdRng::seed_from_u64(sseed.wrapping_add(i as u64)), sample_background::<A>(sseed), len)
+}
+
+/// All cells of the sequence rows (wrap rows excluded) in linear order, as letters.
+fn raw_cells<A: Alphabet>(s: &StripedSequence<A>) -> String {
+    let rows = s.matrix().rows() - s.wrap();
+    let c = s.matrix().columns();
+    (0..rows * c).map(|i| s.matrix()[i % rows][i / rows].as_char()).collect()
+}
+
+/// (logical text, padding text) of what `StripedSequence::sample` produces for the given lengths.
+fn sampled_texts(abc: &str, sseed: u64, lens: &[usize]) -> Vec<(String, String)> {
+    lens.iter()
+        .enumerate()
+        .map(|(i, &l)| {
+            let raw = if abc == "protein" {
+                raw_cells(&sample_striped::<Protein>(sseed, i, l))
+            } else {
+                raw_cells(&sample_striped::<Dna>(sseed, i, l))
+            };
+            (raw[..l].to_string(), raw[l..].to_string())
+        })
+        .collect()
+}
+
 macro_rules! impl_run {
     ($name:ident, $abc:ty) => {
         /// One complete run of a configuration: preliminary observations and the trace.
@@ -95,15 +160,26 @@ macro_rules! impl_run {
             });
             // data set: encode, stripe, add wrap rows
             let prep = no_panic(|| {
+                let src = f.get("src").map(|s| s.as_str()).unwrap_or("text");
+                let pads: Vec<&str> = match f.get("pads").map(|s| s.as_str()) {
+                    None | Some("-") | Some("") => vec![],
+                    Some(p) => p.split(',').map(|s| if s == "." { "" } else { s }).collect(),
+                };
+                let sseed: u64 = f.get("sseed").map(|s| s.parse().unwrap()).unwrap_or(0);
                 let striped: Vec<StripedSequence<A>> = texts
                     .iter()
-                    .map(|t| EncodedSequence::<A>::from_str(t).unwrap())
-                    .map(|e| {
-                        let mut s: StripedSequence<A> = e.to_striped();
+                    .enumerate()
+                    .map(|(i, t)| {
+                        let mut s: StripedSequence<A> = match src {
+                            "matrix" => build_matrix::<A>(t, pads[i]),
+                            "sample" => sample_striped::<A>(sseed, i, t.len()),
+                            _ => EncodedSequence::<A>::from_str(t).unwrap().to_striped(),
+                        };
                         s.configure_wrap(wrap);
                         s
                     })
                     .collect();
+                let raw = striped.iter().map(|s| raw_cells::<A>(s)).collect::<Vec<_>>().join(",");
                 let cnt = striped
                     .iter()
                     .map(|s| {
@@ -126,19 +202,20 @@ macro_rules! impl_run {
                     })
                     .collect::<Vec<_>>()
                     .join("/");
-                (striped, cnt, sym)
+                (striped, cnt, sym, raw)
             });
-            let (striped, cnt, sym) = match prep {
+            let (striped, cnt, sym, raw) = match prep {
                 Some(x) => x,
                 None => {
                     lightmotif::pli::verif::force_backend(None);
-                    return ("cnt=P|sym=P".to_string(), vec!["P".to_string()], "ok".to_string(), "ok".to_string());
+                    return ("cnt=P|sym=P|raw=P".to_string(), vec!["P".to_string()], "ok".to_string(), "ok".to_string());
                 }
             };
             let pre = format!(
-                "cnt={}|sym={}",
+                "cnt={}|sym={}|raw={}",
                 if cnt.is_empty() { "-" } else { &cnt },
-                if sym.is_empty() { "-" } else { &sym }
+                if sym.is_empty() { "-" } else { &sym },
+                if raw.is_empty() { "-" } else { &raw }
             );
             let copies = striped.clone();
             let data = SamplerData::new(striped);
@@ -406,8 +483,16 @@ fn gen_case(rng: &mut Rng, id: usize, tier: &str) -> String {
         }
         lens.push(l.min(maxlen).max(w));
     }
+    // how the striped sequences are built: see "data sets" above
+    let src = match rng.below(4) {
+        0 => "matrix",
+        1 => "sample",
+        _ => "text",
+    };
+    let sseed = rng.next() >> 1;
+    let ncol = <DefaultColumns as Unsigned>::USIZE;
     let planted = gen_seq(rng, abc, w, 0);
-    let seqs: Vec<String> = lens
+    let mut seqs: Vec<String> = lens
         .iter()
         .map(|&l| {
             let style = rng.below(4).min(2);
@@ -420,6 +505,24 @@ fn gen_case(rng: &mut Rng, id: usize, tier: &str) -> String {
             s
         })
         .collect();
+    let mut pads: Vec<String> = vec![];
+    if src == "matrix" {
+        // fill the rows (sometimes one row more than needed) with symbols that are mostly not the wildcard
+        for t in &seqs {
+            let rows = (t.len() + ncol - 1) / ncol + if rng.chance(1, 4) { 1 } else { 0 };
+            let style = rng.below(3);
+            pads.push(gen_seq(rng, abc, rows * ncol - t.len(), style));
+        }
+    } else if src == "sample" {
+        let st = sampled_texts(abc, sseed, &lens);
+        seqs = st.iter().map(|x| x.0.clone()).collect();
+        pads = st.iter().map(|x| x.1.clone()).collect();
+    }
+    let pads_field = if pads.is_empty() {
+        "-".to_string()
+    } else {
+        pads.iter().map(|p| if p.is_empty() { ".".to_string() } else { p.clone() }).collect::<Vec<_>>().join(",")
+    };
     let zoops = rng.chance(11, 20);
     let (mode, api) = if zoops {
         ("zoops", "builder")
@@ -456,7 +559,7 @@ fn gen_case(rng: &mut Rng, id: usize, tier: &str) -> String {
     };
     let wrap = w + *rng.pick(&[0usize, 0, 1, 5]);
     format!(
-        "{} abc={} w={} mode={} api={} seeds={} inertia={} patience={} ord={} rng={} steps={} arm={} wrap={} seqs={}",
+        "{} abc={} w={} mode={} api={} seeds={} inertia={} patience={} ord={} rng={} steps={} arm={} wrap={} src={} pads={} sseed={} seqs={}",
         id,
         abc,
         w,
@@ -470,6 +573,9 @@ fn gen_case(rng: &mut Rng, id: usize, tier: &str) -> String {
         steps,
         arm,
         wrap,
+        src,
+        pads_field,
+        sseed,
         seqs.join(",")
     )
 }
